@@ -282,6 +282,49 @@ def gen_external(H, engine, rng, tier, wdroot):
         ml = rng.randrange(3, 9)
         finish(c, rng.choice([None, 2, 4]), ml, [[2 * (k + 1)] * nstream for k in range(0, ml + 1, rng.choice([1, 2]))],
                mode="async", sleep=rng.choice([0.002, 0.01]), delay=rng.choice([0.001, 0.004]))
+    # ---- the configured command is a LAUNCHER (wrapper sh script that runs the program as its
+    #      child, without exec, and waits for it): "the external program is stopped when
+    #      propagation ends" must hold for the program, not only for the engine's direct child
+    kinds = list(H.LAUNCHERS)
+    nl = [0]
+
+    def kind():
+        nl[0] += 1
+        return kinds[nl[0] % len(kinds)]
+    all_combos = ((2, 3), (None, 3), (1, 3), (2, 2), (1, 1))
+    for si, sched in enumerate(schedules_small(4)):
+        for kc, ml in ((all_combos[si % 3],) if tier == "quick" else all_combos):
+            finish(small, kc, ml, second_stream(sched, si, 4), reverse=bool(si % 2), launcher=kind())
+    for i in range(24 if tier == "quick" else 400):
+        c = base_case(engine, rng, nat=rng.choice([2, 3, 12] if engine == "gromacs" else [2, 3]))
+        c["order"] = rng.choice(ORDERS)
+        mkbox(c, rng.random() < 0.6, rng.random() < 0.4)
+        ml = rng.randrange(1, 8)
+        finish(c, rng.choice([None, 1, 2, 3, 4, 5]), ml, random_schedule(rng, ml + 1, nstream), reverse=rng.random() < 0.4,
+               vel_rev_in=rng.random() < 0.2, cut=rng.choice(["line", "midline"]), launcher=kind())
+    for i in range(8 if tier == "quick" else 60):       # the program fails behind the launcher
+        c = base_case(engine, rng)
+        c["order"] = ORDERS[i % 3]
+        mkbox(c, i % 2 == 0, False)
+        ml = rng.randrange(2, 6)
+        w = rng.randrange(0, ml + 2)
+        sched = [[min(x, 2 * w) for x in e] for e in random_schedule(rng, ml + 1, nstream)]
+        finish(c, rng.choice([None, 1, 2, 3, 4]), ml, sched, frames=w, exit_code=rng.choice([1, 2, 134]), launcher=kind())
+    c = base_case(engine, rng)
+    c["order"] = ORDERS[0]
+    mkbox(c, False, False)
+    finish(c, None, 3, [], die_before_output=True, exit_code=1, frames=0, launcher=kind())
+    # free-running program behind a launcher with a LONG run ahead of it (one frame per 50 ms,
+    # 120 frames) and an early crossing: if the engine stops only the launcher, the program is
+    # still computing and writing into the exe directory long after propagate has returned
+    for i in range(4 if tier == "quick" else 12):
+        c = base_case(engine, rng)
+        c["accel"] = [0.0, 0.0, 0.0]            # monotone order parameter: the crossing is certain
+        c["order"] = ORDERS[0] if i % 2 else ORDERS[2]
+        mkbox(c, False, False)
+        ml = 120
+        finish(c, 2 + i % 2, ml, [[2 * (k + 1)] * nstream for k in range(ml + 1)], mode="async", sleep=0.01, delay=0.05,
+               launcher=kind(), watch=True)
     return cases
 
 
@@ -423,6 +466,16 @@ def oracle(H, case, res, own, frames):
     failed = case.get("exit_code", 0) != 0
     if obs["children_alive"]:
         errs.append((None, f"child processes still alive after propagate returned: {obs['children_alive']}"))
+    if obs.get("program_alive"):
+        how = (f"started through the launcher script run_{eng}_{case['launcher']}.sh (the program is the launcher's child)"
+               if case.get("launcher") else "started directly")
+        errs.append((None, f"the external program is NOT stopped when propagation ends: {how}, "
+                           f"{'; '.join(st + ' ' + cmd for st, cmd in obs['program_alive'])} still alive {obs.get('grace')} s after propagate "
+                           f"{'raised' if obs['raised'] is not None else 'returned'} (SIGTERM marker of the program: "
+                           f"{'present' if obs.get('sigterm') else 'absent'})"
+                           + (f"; it keeps writing into the exe directory: {obs['still_writing']}" if obs.get("still_writing") else "")))
+    elif obs.get("still_writing"):
+        errs.append((None, f"files in the exe directory still change after propagate ended: {obs['still_writing']}"))
     if obs.get("hang"):
         cls = "L14" if (eng == "gromacs" and not case.get("write_rest", True)) else None
         errs.append((cls, f"the program ended with code {case.get('exit_code', 0)} leaving an incomplete frame and propagate never "
@@ -545,6 +598,7 @@ def run(ctx):
     try:
         _run(ctx, runner, H, I, sysharness, ctx.rng, wdroot)
     finally:
+        ctx.cov["stray_processes_killed_at_end"] = H.kill_strays(wdroot)
         shutil.rmtree(wdroot, ignore_errors=True)
 
 
@@ -581,6 +635,8 @@ def evaluate(ctx, runner, H, I, cases, results):
         eng = case["engine"]
         ctx.dist(f"{eng}:{case.get('mode', 'sync') if eng in H.EXTERNAL else 'inproc'}")
         ctx.dist(f"{eng}:reverse={int(bool(case.get('reverse')))}")
+        if eng in H.EXTERNAL:
+            ctx.dist(f"{eng}:command={'launcher-' + case['launcher'] if case.get('launcher') else 'program'}")
         if tag != "ok":
             ctx.violation(f"harness failure running a {eng} case: {str(res)[:300]}", {"case": case, "error": str(res)[-2000:]}, False)
             continue
@@ -607,7 +663,8 @@ def evaluate(ctx, runner, H, I, cases, results):
         reqs.append((case, obs, mi))
     # one violation per (engine, kind of failure): the smallest failing case is the replay
     for (eng, _), lst in sorted(groups.items(), key=lambda kv: kv[0]):
-        lst.sort(key=lambda t: (len(t[0].get("schedule", []) or []), t[0]["maxlen"], len(t[0].get("pos", [])), t[0]["subcycles"]))
+        lst.sort(key=lambda t: (0 if t[2].get("main", {}).get("still_writing") else 1,      # a surviving program caught writing first
+                                len(t[0].get("schedule", []) or []), t[0]["maxlen"], len(t[0].get("pos", [])), t[0]["subcycles"]))
         case, msg, res = lst[0]
         ctx.violation(f"C12 statement fails on the implementation ({eng}): {msg}  [{len(lst)} generated cases fail this way]",
                       {"case": case, "observed": slim(res), "oracle": msg}, True)
@@ -711,6 +768,7 @@ def replay(doc):
     try:
         (tag, res), = sysharness.run_many(H.run_case, [case], jobs=1, timeout=300)
     finally:
+        H.kill_strays(root)
         shutil.rmtree(root, ignore_errors=True)
     if tag != "ok":
         print("replay: harness failure:", str(res)[-1500:])
